@@ -9,15 +9,17 @@
    ascending key order by the code: both look-ups stop at the first node whose key is greater
    than the key searched, so an unsorted chain hides nodes.  For the parameter hash key = hashval =
    parameter index; for the property map the order is (hashval, strcmp): the model's key is the
-   rank of (crc32c(name), name) in that order (computed by the driver), hashval = crc32c(name).
-   [Fixed] is the code of the tree; [Orig] variants are the seeded-bug shapes (head insertion,
-   rehash without ordering) kept for refutations.  No proofs in this file. *)
-Require Import List ZArith Bool Arith Lia.
+   rank of (crc32c(name), name) in that order (computed by the driver), hashval = crc32c(name)
+   (a binary number: hash values are 32-bit).
+   [HFixed] is the code of the tree; the other variants are bug shapes (hash_insert pushing on the
+   chain head, hash_expand / map_expand pushing rehashed nodes on the chain head) kept for
+   refutations.  No proofs in this file. *)
+Require Import List ZArith NArith Bool Arith Lia.
 Import ListNotations.
 Require Import LV.Mem.Alloc LV.Mem.PropList.
 Open Scope Z_scope.
 
-Record node := mkN { nkey : nat; nhash : nat; nblocks : list block_id }.
+Record node := mkN { nkey : nat; nhash : N; nblocks : list block_id }.
 Definition chain := list node.
 
 Record htab := mkH {
@@ -27,7 +29,7 @@ Record htab := mkH {
 }.
 Definition halloc (h : htab) : nat := length (hbuckets h).
 
-Inductive hvariant := HFixed | HHeadInsert | HRehashAppend.
+Inductive hvariant := HFixed | HHeadInsert | HRehashHead.
 
 (* insertion into a chain: walk while the next node does not stop us.
    strict = true : stop at the first node with key > new key   (hash_insert, hash_expand)
@@ -56,7 +58,10 @@ Fixpoint chain_remove (k : nat) (c : chain) : chain :=
   | e :: t => if (nkey e =? k)%nat then t else e :: chain_remove k t
   end.
 
-Definition bucket_of (hv len : nat) : nat := (hv mod len)%nat.
+(* hashval % allocation (allocation = 0 would be a division by zero in C; every caller touches the
+   NULL table right after computing the index, which is the fault the model reports) *)
+Definition bucket_of (hv : N) (len : nat) : nat :=
+  match len with O => O | S _ => N.to_nat (hv mod N.of_nat len) end.
 
 (* table[index] for reading or writing: the array must be live and the index inside it *)
 Definition bucket_access (h : htab) (i : nat) : M unit :=
@@ -83,7 +88,7 @@ Fixpoint rehash_chain (v : hvariant) (strict : bool) (h : htab) (c : chain) : M 
       bucket_access h i ;;;
       rehash_chain v strict
         (set_bucket h i (match v with
-                         | HRehashAppend => nth i (hbuckets h) [] ++ [n]
+                         | HRehashHead => n :: nth i (hbuckets h) []
                          | _ => chain_insert strict n (nth i (hbuckets h) [])
                          end)) rest
   end.
@@ -111,7 +116,7 @@ Definition expand (v : hvariant) (strict : bool) (h : htab) (new_alloc : nat) : 
       ret (true, h')
   end.
 
-Definition table_lookup (h : htab) (hv k : nat) : M (option node) :=
+Definition table_lookup (h : htab) (hv : N) (k : nat) : M (option node) :=
   let i := bucket_of hv (halloc h) in
   bucket_access h i ;;; ret (chain_lookup k (nth i (hbuckets h) [])).
 
@@ -147,14 +152,14 @@ Definition ph_get (v : hvariant) (h : htab) (parameter : Z) : M (htab * outcome)
   if parameter <? 0 then ret (h, Err EINVAL)
   else
     let k := Z.to_nat parameter in
-    f <- table_lookup h k k ;;
+    f <- table_lookup h (N.of_nat k) k ;;
     match f with
     | Some _ => ret (h, Done)
     | None =>
         m <- malloc 64 ;;
         match m with
         | None => ret (h, Err ENOMEM)
-        | Some b => h' <- ph_insert v h (mkN k k [b]) ;; ret (h', Done)
+        | Some b => h' <- ph_insert v h (mkN k (N.of_nat k) [b]) ;; ret (h', Done)
         end
     end.
 
@@ -163,7 +168,7 @@ Definition ph_find (h : htab) (parameter : Z) : M (htab * outcome) :=
   if parameter <? 0 then ret (h, Err EINVAL)
   else
     let k := Z.to_nat parameter in
-    f <- table_lookup h k k ;;
+    f <- table_lookup h (N.of_nat k) k ;;
     match f with Some _ => ret (h, Done) | None => ret (h, Err ENOENT) end.
 
 Inductive phop := PHGet (p : Z) | PHFind (p : Z).
@@ -202,7 +207,7 @@ Definition map_new : M (option pmap) :=
 
 (* map_subtree(map, add, key): expand when count + 1 >= 2 * hash_size (failure: NULL), look-up,
    else (add) malloc the element, strdup the key (unwind), link into the chain and the order list *)
-Definition map_subtree (v : hvariant) (m : pmap) (add : bool) (k hv : nat) : M (pmap * outcome) :=
+Definition map_subtree (v : hvariant) (m : pmap) (add : bool) (k : nat) (hv : N) : M (pmap * outcome) :=
   r <- (if (2 * halloc (mtab m) <=? hcount (mtab m) + 1)%nat
         then expand v false (mtab m) (map_new_alloc (hcount (mtab m)))
         else ret (true, mtab m)) ;;
@@ -230,7 +235,7 @@ Definition map_subtree (v : hvariant) (m : pmap) (add : bool) (k hv : nat) : M (
      end).
 
 (* map_delete *)
-Definition map_delete (m : pmap) (k hv : nat) : M (pmap * outcome) :=
+Definition map_delete (m : pmap) (k : nat) (hv : N) : M (pmap * outcome) :=
   let h := mtab m in
   if (hcount h =? 0)%nat then ret (m, Err ENOENT)
   else
@@ -255,7 +260,7 @@ Definition map_keys (m : pmap) : M (pmap * outcome * list nat) :=
       free (Some b) ;;; ret (m, Done, morder m)
   end.
 
-Inductive mop := MSet (k hv : nat) | MGet (k hv : nat) | MDel (k hv : nat) | MKeys.
+Inductive mop := MSet (k : nat) (hv : N) | MGet (k : nat) (hv : N) | MDel (k : nat) (hv : N) | MKeys.
 
 Definition mstep (v : hvariant) (m : pmap) (op : mop) : M (pmap * outcome * list nat) :=
   match op with
@@ -274,9 +279,24 @@ Fixpoint mrun (v : hvariant) (m : pmap) (ops : list mop) : M (pmap * list (outco
                    (let (m'', os) := r2 in ret (m'', (o, ks) :: os)))
   end.
 
-(* vnaproperty_free of a map: elements in order-list order, then the table, then the map *)
+(* vnaproperty_free of a map: the elements are reached through the order list (not through the
+   chains): key string, then element; then the table; then the map.  An order entry without an
+   element in the table is a dangling vme_order_next pointer. *)
+Definition all_nodes (h : htab) : list node := concat (hbuckets h).
+Definition all_keys (h : htab) : list nat := map nkey (all_nodes h).
+
+Fixpoint free_order (order : list nat) (nodes : list node) : M unit :=
+  match order with
+  | [] => ret tt
+  | k :: t =>
+      match find (fun n => (nkey n =? k)%nat) nodes with
+      | Some n => free_blocks (rev (nblocks n)) ;;; free_order t nodes
+      | None => fail UseAfterFree
+      end
+  end.
+
 Definition map_free (m : pmap) : M unit :=
-  table_free (mtab m) ;;; free (Some (mblk m)).
+  free_order (morder m) (all_nodes (mtab m)) ;;; free (hblk (mtab m)) ;;; free (Some (mblk m)).
 
 Definition mhistory (v : hvariant) (ops : list mop) : M (list (outcome * list nat)) :=
   o <- map_new ;;
@@ -284,7 +304,3 @@ Definition mhistory (v : hvariant) (ops : list mop) : M (list (outcome * list na
   | None => ret []
   | Some m => r <- mrun v m ops ;; (let (m', os) := r in map_free m' ;;; ret os)
   end.
-
-(* all nodes / keys stored in a table *)
-Definition all_nodes (h : htab) : list node := concat (hbuckets h).
-Definition all_keys (h : htab) : list nat := map nkey (all_nodes h).
